@@ -92,6 +92,35 @@ fn lit(ty: Ty, rng: &mut Rng) -> String {
 
 /// An input entry and a value that satisfies it (FEEL text), when there is an obvious one.
 fn input_entry(ty: Ty, rng: &mut Rng) -> (String, &'static str, Option<String>) {
+  if rng.chance(1, 6) {
+    // negated intervals, negated boolean literals, and lists of tests with an alternative `null`
+    let (a, b) = (lit(ty, rng), lit(ty, rng));
+    let (ob, cb) = (*rng.pick(&["[", "(", "]"]), *rng.pick(&["]", ")", "["]));
+    return match (ty, rng.below(8)) {
+      (Ty::Bool, 0..=2) => (format!("not({})", a), "not-boolean", Some(if a == "true" { "false".into() } else { "true".into() })),
+      (Ty::Bool, 3) => ("true, false".into(), "disjunction", Some(a)),
+      (Ty::Num, 0 | 1) => {
+        let lo = rng.range(1, 4);
+        let hi = lo + rng.range(0, 3);
+        (format!("not({}{}..{}{})", ob, lo, hi, cb), "not-interval", Some(format!("{}", hi + 1)))
+      }
+      (Ty::Num, 2) => {
+        let lo = rng.range(1, 4);
+        let hi = lo + rng.range(0, 3);
+        if rng.chance(1, 2) {
+          (format!("not({}{}..{}{}, {})", ob, lo, hi, cb, a), "not-interval", Some(format!("{}", hi + 2)))
+        } else {
+          (format!("not(< {}, {}{}..{}{})", lo, ob, lo, hi, cb), "not-interval", Some(format!("{}", hi + 1)))
+        }
+      }
+      (Ty::Str, 0..=2) => (format!("not({}{}..{}{})", ob, a, b, cb), "not-interval", Some("\"f\"".into())),
+      (_, 4) => (format!("null, {}", a), "null-alternative", Some(a)),
+      (_, 5) => (format!("{}, null", a), "null-alternative", Some(a)),
+      (_, 6) => (format!("not(null, {})", a), "null-alternative", Some(b)),
+      (_, 7) => (format!("not({}, null)", a), "null-alternative", Some(b)),
+      _ => ("null".into(), "null-alternative", Some("null".into())),
+    };
+  }
   match ty {
     Ty::Bool => match rng.below(3) {
       0 => ("-".into(), "dash", None),
@@ -486,6 +515,44 @@ fn corpus_tables() -> Vec<(usize, GenTable)> {
       },
     ));
   }
+  // PRIORITY / OUTPUT ORDER with the same output values in different orders in two clauses: an entry ranks among the
+  // output values of its own clause
+  let sout = |name: &str, ov: &str| OutClause { name: Some(name.into()), ty: Ty::Str, output_values: Some(ov.to_string()), default: None };
+  for ix in [2usize, 5] {
+    res.push((
+      ix,
+      GenTable {
+        hit_policy: POLICIES[ix].0,
+        aggregation: POLICIES[ix].1,
+        ins: input(),
+        outs: vec![sout("p", "\"A\",\"B\""), sout("q", "\"B\",\"A\"")],
+        rules: vec![rule("-", &["\"A\"", "\"A\""]), rule("-", &["\"A\"", "\"B\""])],
+      },
+    ));
+    res.push((
+      ix,
+      GenTable {
+        hit_policy: POLICIES[ix].0,
+        aggregation: POLICIES[ix].1,
+        ins: input(),
+        outs: vec![sout("p", "\"A\",\"B\""), sout("q", "\"C\",\"B\",\"A\"")],
+        rules: vec![rule("-", &["\"B\"", "\"A\""]), rule("-", &["\"A\"", "\"A\""]), rule("-", &["\"A\"", "\"C\""]), rule("-", &["\"A\"", "\"B\""])],
+      },
+    ));
+  }
+  // rule matching: `-` against an absent input, negated intervals, alternatives `null` (policy C: the list of matches)
+  for entries in [vec!["-"], vec!["not([2..4])", "not((2..4), 6)", "not(< 2, [4..5])"], vec!["null, 3", "3, null", "not(null)", "not(null, 3)", "null"]] {
+    res.push((
+      6,
+      GenTable {
+        hit_policy: POLICIES[6].0,
+        aggregation: POLICIES[6].1,
+        ins: input(),
+        outs: vec![out("a", None, None)],
+        rules: entries.iter().enumerate().map(|(k, e)| rule(e, &[&format!("{}", k + 1)])).collect(),
+      },
+    ));
+  }
   res
 }
 
@@ -806,6 +873,11 @@ fn input_tuple(t: &GenTable, wits: &[Vec<Option<String>>], rng: &mut Rng) -> Vec
     };
     tuple.push(v);
   }
+  // now and then one input of an otherwise matching tuple is null or absent
+  if !tuple.is_empty() && rng.chance(1, 6) {
+    let k = rng.below(tuple.len() as u64) as usize;
+    tuple[k] = if rng.chance(1, 2) { Some("null".to_string()) } else { None };
+  }
   tuple
 }
 
@@ -816,6 +888,9 @@ fn input_tuple(t: &GenTable, wits: &[Vec<Option<String>>], rng: &mut Rng) -> Vec
 enum OV {
   I(i64),
   S(String),
+  B(bool),
+  /// the input is null (or absent)
+  Null,
 }
 
 fn ov_parse(t: &str, like: &OV) -> Option<OV> {
@@ -823,6 +898,12 @@ fn ov_parse(t: &str, like: &OV) -> Option<OV> {
   match like {
     OV::I(_) => t.parse::<i64>().ok().map(OV::I),
     OV::S(_) => t.strip_prefix('"').and_then(|r| r.strip_suffix('"')).filter(|r| !r.contains('"') && r.is_ascii()).map(|r| OV::S(r.to_string())),
+    OV::B(_) => match t {
+      "true" => Some(OV::B(true)),
+      "false" => Some(OV::B(false)),
+      _ => None,
+    },
+    OV::Null => None,
   }
 }
 
@@ -837,12 +918,11 @@ fn ov_operand(t: &str, v: &OV) -> Option<Option<OV>> {
   if let Some(x) = ov_parse(t, v) {
     return Some(Some(x));
   }
-  let other = match v {
-    OV::I(_) => OV::S(String::new()),
-    OV::S(_) => OV::I(0),
-  };
-  if ov_parse(t, &other).is_some() || matches!(t.trim(), "true" | "false") {
-    return Some(None);
+  // a well-formed literal of another kind (for a null input: of any kind)
+  for other in [OV::I(0), OV::S(String::new()), OV::B(false)] {
+    if ov_parse(t, &other).is_some() {
+      return Some(None);
+    }
   }
   None
 }
@@ -857,7 +937,11 @@ fn entry_oracle_v(entry: &str, v: &OV) -> Option<bool> {
   for test in body.split(',') {
     let t = test.trim();
     let ok = if t == "-" {
+      // irrelevant: satisfied by every input value, null included (DMN 1.3, 8.3.3)
       true
+    } else if t == "null" {
+      // an alternative `null` is the test `? = null`: satisfied by a null input only
+      *v == OV::Null
     } else if let Some(r) = t.strip_prefix("<=") {
       ov_operand(r, v)?.map_or(false, |x| *v <= x)
     } else if let Some(r) = t.strip_prefix(">=") {
@@ -881,7 +965,11 @@ fn entry_oracle_v(entry: &str, v: &OV) -> Option<bool> {
     } else {
       ov_operand(t, v)?.map_or(false, |x| *v == x)
     };
-    if negated && !ok && t != "-" {
+    if negated && *v == OV::Null && (t.starts_with('<') || t.starts_with('>') || t.contains("..")) {
+      // an ordering test of a null input is undecided (null), and so is its negation: not asserted here
+      return None;
+    }
+    if negated && !ok && t != "-" && t != "null" && *v != OV::Null {
       // a negated list with an alternative of another kind: not asserted here
       let probe = t.trim_start_matches(|c| c == '<' || c == '>' || c == '=').trim();
       if !t.contains("..") && ov_parse(probe, v).is_none() {
@@ -891,6 +979,27 @@ fn entry_oracle_v(entry: &str, v: &OV) -> Option<bool> {
     any |= ok;
   }
   Some(if negated { !any } else { any })
+}
+
+/// The branch of rule matching a cell exercises (part of the signature of a disagreement; the shapes the
+/// cell oracle had from the start are `other`).
+fn cell_branch(entry: &str, v: &OV) -> &'static str {
+  let e = entry.trim();
+  let negated = e.starts_with("not(");
+  let has_null = e.trim_start_matches("not(").trim_end_matches(')').split(',').any(|t| t.trim() == "null");
+  if e == "-" && *v == OV::Null {
+    "irrelevant entry against a null input"
+  } else if has_null {
+    "list of tests with a null alternative"
+  } else if negated && e.contains("..") {
+    "negated list with an interval"
+  } else if negated && matches!(v, OV::B(_)) {
+    "negated list of boolean literals"
+  } else if *v == OV::Null {
+    "null input"
+  } else {
+    "other"
+  }
 }
 
 fn context_of(t: &GenTable, tuple: &[Option<String>]) -> (FeelContext, FeelContext, String) {
@@ -916,10 +1025,39 @@ fn context_of(t: &GenTable, tuple: &[Option<String>]) -> (FeelContext, FeelConte
   (sent, seen, format!("{{{}}}", text.join(", ")))
 }
 
+/// Probe (`C03_PROBE=<file>`): one `input expression | unary tests` per line, evaluated in an empty scope as the
+/// decision table builder composes an input entry (`In(input expression, unary tests)`); prints and exits.
+fn probe(path: &str) -> ! {
+  let text = std::fs::read_to_string(path).unwrap_or_default();
+  let scope = Scope::default();
+  for line in text.lines().filter(|l| !l.trim().is_empty()) {
+    let shown = match line.split_once('|') {
+      None => "?".to_string(),
+      Some((l, r)) => {
+        let r = guarded(|| {
+          let ie = dmntk_feel_parser::parse_expression(&scope, l.trim(), false).map_err(|e| e.to_string())?;
+          let ut = dmntk_feel_parser::parse_unary_tests(&scope, r.trim(), false).map_err(|e| e.to_string())?;
+          dmntk_feel_evaluator::evaluate(&scope, &AstNode::In(Box::new(ie), Box::new(ut))).map(|v| format!("{:?}", v)).map_err(|e| e.to_string())
+        });
+        match r {
+          Ok(Ok(v)) => v,
+          Ok(Err(e)) => format!("ERROR {}", e),
+          Err(p) => format!("PANIC {}", p),
+        }
+      }
+    };
+    println!("{} => {}", line, shown);
+  }
+  std::process::exit(0)
+}
+
 pub fn run(cfg: &Cfg) -> Report {
+  if let Ok(p) = std::env::var("C03_PROBE") {
+    probe(&p);
+  }
   let mut rep = Report::new(
     "C03",
-    "generated decision tables (1..4 inputs, 1..3 outputs, 0..8 rules (+1 duplicate), all 11 hit policies/aggregators plus absent/padded attribute, input entries '-', literals, comparisons, intervals, disjunctions, not(...), optional input values, output values, default outputs) rendered as DMN XML and evaluated through parse → ModelEvaluator::new → evaluate_invocable, with input tuples drawn from the rule entries. Non-trivial: the table has at least one rule; distinct by (XML, input context).",
+    "generated decision tables (1..4 inputs, 1..3 outputs, 0..8 rules (+1 duplicate), all 11 hit policies/aggregators plus absent/padded attribute, input entries '-', literals, null, comparisons, intervals, disjunctions, not(...) of those incl. negated intervals / booleans / null alternatives, null and absent inputs, optional input values, output values, default outputs) rendered as DMN XML and evaluated through parse → ModelEvaluator::new → evaluate_invocable, with input tuples drawn from the rule entries. Non-trivial: the table has at least one rule; distinct by (XML, input context).",
   );
   let thorough = cfg.tier == "thorough";
   let n_tables = if thorough { 60_000 } else { 6_000 };
@@ -944,6 +1082,7 @@ pub fn run(cfg: &Cfg) -> Report {
   corpus.reverse();
   for ti in 0..(corpus.len() + n_tables) {
     // the always-run corpus (witnesses of repaired findings) first, then generated tables
+    let from_corpus = !corpus.is_empty();
     let (policy_ix, (t, wits)) = match corpus.pop() {
       Some((ix, t)) => {
         let w = vec![vec![None; t.ins.len()]; t.rules.len()];
@@ -1019,15 +1158,22 @@ pub fn run(cfg: &Cfg) -> Report {
         }
       }
     }
-    for _ in 0..tuples_per_table {
-      let tuple = input_tuple(&t, &wits, &mut rng);
+    for k in 0..tuples_per_table {
+      // corpus tables: the first tuple leaves every input absent, the second gives null
+      let tuple = match (from_corpus, k) {
+        (true, 0) => vec![None; t.ins.len()],
+        (true, 1) => vec![Some("null".to_string()); t.ins.len()],
+        _ => input_tuple(&t, &wits, &mut rng),
+      };
       let (sent, seen, input_text) = context_of(&t, &tuple);
       // rule matching, cell by cell, against the oracle on the entry text (numeric columns, integer inputs)
       {
         let scope: Scope = seen.clone().into();
         for (i, c) in t.ins.iter().enumerate() {
-          let v = match (&c.ty, tuple[i].as_ref()) {
-            (Ty::Num, Some(tv)) => match tv.trim().parse::<i64>() {
+          let v = match (&c.ty, tuple[i].as_ref().map(|tv| tv.trim())) {
+            // an absent input is seen as null by the decision logic
+            (_, None) | (_, Some("null")) => OV::Null,
+            (Ty::Num, Some(tv)) => match tv.parse::<i64>() {
               Ok(v) => OV::I(v),
               Err(_) => continue,
             },
@@ -1035,7 +1181,10 @@ pub fn run(cfg: &Cfg) -> Report {
               Some(v) => v,
               None => continue,
             },
-            _ => continue,
+            (Ty::Bool, Some(tv)) => match ov_parse(tv, &OV::B(false)) {
+              Some(v) => v,
+              None => continue,
+            },
           };
           for r in &t.rules {
             let want = match entry_oracle_v(&r.inputs[i], &v) {
@@ -1054,11 +1203,18 @@ pub fn run(cfg: &Cfg) -> Report {
               Ok(None) => "error".to_string(),
               Err(p) => format!("panic {}", p),
             };
-            if shown != want.to_string() {
+            // for a null input only `satisfied or not` is asserted (an undecided test may answer false or null)
+            let agrees = if v == OV::Null { matches!(&got, Ok(Some(Value::Boolean(true)))) == want } else { shown == want.to_string() };
+            rep.hit(&format!("cell-oracle:{}", cell_branch(&r.inputs[i], &v)));
+            if !agrees {
+              let sig = match cell_branch(&r.inputs[i], &v) {
+                "other" => "an input entry is satisfied (or not) contrary to what its text says: the set of matching rules is wrong".to_string(),
+                b => format!("an input entry is satisfied (or not) contrary to what its text says ({}): the set of matching rules is wrong", b),
+              };
               rep.disagree(
                 Kind::ImplVsSpec,
                 "rule-matching",
-                "an input entry is satisfied (or not) contrary to what its text says: the set of matching rules is wrong",
+                &sig,
                 &format!("input value {:?} against the input entry `{}`", v, r.inputs[i]),
                 &shown,
                 &want.to_string(),
@@ -1092,6 +1248,87 @@ pub fn run(cfg: &Cfg) -> Report {
         n_out: t.outs.len(),
         any_default: t.outs.iter().any(|c| c.default.is_some()),
       });
+    }
+  }
+  // COLLECT with < / > over outputs that are dates, times, date-times or durations: the minimum / maximum of comparable
+  // values is defined for them (DMN 1.3, 10.3.4.4 min / max: comparable items). The expectation is written out here:
+  // the literals of a pool are listed in increasing order, the matching rules are told by the oracle on the entry texts.
+  {
+    const POOLS: [(&str, [&str; 4]); 5] = [
+      ("date", ["date(\"2019-12-31\")", "date(\"2020-01-01\")", "date(\"2020-02-29\")", "date(\"2021-06-15\")"]),
+      ("time", ["time(\"08:00:00\")", "time(\"09:30:00\")", "time(\"12:00:00\")", "time(\"23:59:59\")"]),
+      ("date and time", ["date and time(\"2019-12-31T23:00:00\")", "date and time(\"2020-01-01T10:00:00\")", "date and time(\"2020-01-01T10:00:01\")", "date and time(\"2021-06-15T00:00:00\")"]),
+      ("days and time duration", ["duration(\"-P1D\")", "duration(\"PT12H\")", "duration(\"P1D\")", "duration(\"P1DT1H\")"]),
+      ("years and months duration", ["duration(\"-P1M\")", "duration(\"P11M\")", "duration(\"P1Y\")", "duration(\"P1Y2M\")"]),
+    ];
+    let scope = Scope::default();
+    let n_temporal = if thorough { 2_000 } else { 200 };
+    for ti in 0..n_temporal {
+      let (kind, pool) = &POOLS[ti % POOLS.len()];
+      let policy_ix = if (ti / POOLS.len()) % 2 == 0 { 8usize } else { 9 };
+      let n_rules = 1 + rng.below(5) as usize;
+      let mut rules = vec![];
+      let mut picks = vec![];
+      for _ in 0..n_rules {
+        let k = rng.range(1, 5);
+        let entry = match rng.below(4) {
+          0 => "-".to_string(),
+          1 => format!("{}", k),
+          2 => format!(">= {}", k),
+          _ => format!("[{}..{}]", k, k + 2),
+        };
+        let pick = rng.below(4) as usize;
+        picks.push(pick);
+        rules.push(GenRule { inputs: vec![entry], outputs: vec![pool[pick].to_string()] });
+      }
+      let t = GenTable {
+        hit_policy: POLICIES[policy_ix].0,
+        aggregation: POLICIES[policy_ix].1,
+        ins: vec![InClause { name: "i1".into(), ty: Ty::Num, input_values: None }],
+        outs: vec![OutClause { name: Some("o1".into()), ty: Ty::Num, output_values: None, default: None }],
+        rules,
+      };
+      let xml = table_xml(&t);
+      let me = match guarded(|| dmntk_model::parse(&xml).ok().and_then(|d| ModelEvaluator::new(&d).ok())) {
+        Ok(Some(me)) => me,
+        _ => {
+          rep.disagree(Kind::ImplVsModel, "temporal-collect", "a generated well-formed table does not load", &xml, "error", "a built model");
+          continue;
+        }
+      };
+      for _ in 0..3 {
+        let v = rng.range(0, 7);
+        let matching: Vec<usize> = (0..n_rules).filter(|&k| entry_oracle(&t.rules[k].inputs[0], v) == Some(true)).collect();
+        let want = match (policy_ix, matching.iter().map(|&k| picks[k]).min(), matching.iter().map(|&k| picks[k]).max()) {
+          (8, Some(lo), _) => eval_text(&scope, pool[lo]).map(|x| x.to_string()),
+          (9, _, Some(hi)) => eval_text(&scope, pool[hi]).map(|x| x.to_string()),
+          _ => Some("null".to_string()),
+        };
+        let want = match want {
+          Some(w) => w,
+          None => continue,
+        };
+        let mut sent = FeelContext::default();
+        sent.set_entry(&"i1".into(), Value::Number(v.into()));
+        let got = match guarded(|| me.evaluate_invocable("D", &sent)) {
+          Ok(Value::Null(_)) => "null".to_string(),
+          Ok(x) => x.to_string(),
+          Err(p) => format!("panic {}", p),
+        };
+        let key = format!("{}|{{i1: {}}}", xml, v);
+        rep.case(&key, !matching.is_empty());
+        rep.hit(&format!("temporal-collect:{} × matches {}", kind, if matching.len() > 1 { "several" } else if matching.len() == 1 { "one" } else { "none" }));
+        if got != want {
+          rep.disagree(
+            Kind::ImplVsSpec,
+            "temporal-collect",
+            "COLLECT with < or >: the result is not the minimum / maximum of the matching outputs (dates, times, durations)",
+            &format!("{} | input {{i1: {}}}", xml, v),
+            &got,
+            &want,
+          );
+        }
+      }
     }
   }
   // the shipped EX_* tables, recognised from their box-drawing text
